@@ -1,0 +1,6 @@
+//go:build verif
+
+package priority_queue
+
+// VerifPriority returns the priority the item is currently queued with.
+func (i *Item[V, P]) VerifPriority() P { return i.priority }
